@@ -566,6 +566,8 @@ class ExtendedIndexedOperand(Operand):
 
         if self.left == "" or \
                 (type(self.left) != str and self.left.is_numeric() and self.left.int == 0 and "PCR" not in self.right):
+            if self.right == "PCR":
+                raise OperandTypeError("[{}] requires an offset from the program counter".format(self.operand_string))
             if "-" in self.right or "+" in self.right:
                 if self.right == "X+" or self.right == "Y+" or self.right == "U+" or self.right == "S+":
                     raise OperandTypeError("[{}] not allowed as an extended indirect value".format(self.right))
@@ -579,6 +581,8 @@ class ExtendedIndexedOperand(Operand):
                 raw_post_byte |= 0x14
 
         elif self.left == "A" or self.left == "B" or self.left == "D":
+            if self.right not in ["X", "Y", "U", "S"]:
+                raise OperandTypeError("[{}] invalid indexed expression".format(self.operand_string))
             if self.left == "A":
                 raw_post_byte |= 0x16
             if self.left == "B":
@@ -665,6 +669,8 @@ class IndexedOperand(Operand):
         super().__init__(instruction)
         self.type = OperandType.INDEXED
         self.operand_string = operand_string
+        if operand_string.startswith("#"):
+            raise OperandTypeError("[{}] is not an indexed value".format(operand_string))
         try:
             self.value = Value.create_from_str(self.operand_string, self.instruction)
         except ValueTypeError:
@@ -710,6 +716,8 @@ class IndexedOperand(Operand):
 
         if self.left == "" or \
                 (type(self.left) != str and self.left.is_numeric() and self.left.int == 0 and "PCR" not in self.right):
+            if self.right == "PCR":
+                raise OperandTypeError("[{}] requires an offset from the program counter".format(self.operand_string))
             raw_post_byte |= 0x80
             if "-" in self.right or "+" in self.right:
                 if "+" in self.right:
@@ -724,6 +732,8 @@ class IndexedOperand(Operand):
                 raw_post_byte |= 0x04
 
         elif self.left == "A" or self.left == "B" or self.left == "D":
+            if self.right not in ["X", "Y", "U", "S"]:
+                raise OperandTypeError("[{}] invalid indexed expression".format(self.operand_string))
             raw_post_byte |= 0x80
             if self.left == "A":
                 raw_post_byte |= 0x06
